@@ -2986,12 +2986,25 @@ def check_C16(tier: str, seed: int) -> int:
         if not ok:
             direct_fail.append({"what": "asefile::AsepriteFile is not Send + Sync (the assertion binary does not compile)", "rustc": err})
         items: List[Tuple[str, str]] = []
+        twin_pairs: List[Tuple[int, int]] = []
         for i, (s, data) in enumerate(small_sprites(rng, 60 if tier == "quick" else 600, max_canvas=8, max_layers=5, max_frames=3)):
             items.append((w.put(data), "generated"))
             if i % 3 == 0:
-                # the same sprite under other names (palette entries, layers, tags, ...): alive at the same time as its original in the
-                # threads pass and right after it in the sequence passes
+                # the same sprite under other names (palette entries, layers, tags, ...): loaded right after its original in a one-thread
+                # pass of its own below (the driver keeps the previous sprite alive while the next one is loaded and observed)
+                twin_pairs.append((len(items) - 1, len(items)))
                 items.append((w.put(gen.encode(name_twin_of(s, rng), None, rng)), "generated, names changed"))
+        for k in range(12 if tier == "quick" else 100):
+            # two indexed sprites with the same colours at the same indices and different entry names
+            cols = [(rng.randrange(256), rng.randrange(256), rng.randrange(256), 255) for _ in range(rng.randint(2, 9))]
+            pair = []
+            for tag in ("a", "b"):
+                ents = [(c[0], c[1], c[2], c[3], (None if rng.random() < 0.4 else "%s%d-%d" % (tag, k, j))) for j, c in enumerate(cols)]
+                fr = ase.Frame(chunks=[ase.PaletteChunk(first=0, entries=ents), ase.LayerChunk(name="l"),
+                                       ase.CelChunk(layer=0, w=2, h=1, pixels=bytes([0, len(cols) - 1]), ctype_cel=0)])
+                pair.append(len(items))
+                items.append((w.put(ase.serialize(ase.Sprite(width=2, height=1, depth=8, transparent=0, frames=[fr]))), "palette pair %d%s: same colours, other names" % (k, tag)))
+            twin_pairs.append((pair[0], pair[1]))
         for s, data in extreme_canvas_sprites(rng, 12 if tier == "quick" else 100):
             items.append((w.put(data), "tilemap sprite with canvas %dx%d" % (s["width"], s["height"])))
         for desc, data in many_layer_files(rng) + big_tileset_files(rng):
@@ -3035,6 +3048,14 @@ def check_C16(tier: str, seed: int) -> int:
                                         "input": items[i][1], "_data": open(paths[i], "rb").read()})
                     break
             if len(direct_fail) > 6:
+                break
+        # originals and their name-only twins, pair after pair on one thread (a -> b -> a): both are alive when the second is observed
+        tp_idx = [i for a_, b_ in twin_pairs for i in (a_, b_, a_)]
+        tp = vplib.impl_observe("release", [paths[i] for i in tp_idx], w.dir, 15, max_frames=3, max_layers=5, shards=1, tag="twins")
+        for i, b in zip(tp_idx, tp):
+            if iso[i] is None or b is None or iso[i][0] != b[0]:
+                direct_fail.append({"what": "the observation of a sprite depends on another sprite that is alive at the same time (its twin with other names, vs isolated)",
+                                    "input": items[i][1], "_data": open(paths[i], "rb").read()})
                 break
         for i, (p, desc) in enumerate(items):
             for nm, other in (("in list order", fwd), ("in reverse order", rev)):
